@@ -156,7 +156,7 @@ def run(tier, seed):
         ev.case((e["fn"], str(log.meta[e["tid"]][2])[:300]), nontrivial=e["aexc"] == "ok" and any(x["m9"] not in (0, 10 ** 9) for x in e["a"]))
     ev.sample({"fn": log.events[0]["fn"], "input": log.meta[1][2], "f(a,b)": log.meta[1][3][1], "f(b,a)": log.meta[1][4][1]})
     ev.cov["rule"] = ("seeded inputs of unequal sizes admissible in both roles, incl. exact-threshold distances, for the 19 functions "
-                      "of Relations!SwapSpec; distinct = distinct (function, input, parameters); non-trivial = some score strictly "
+                      "of Relations!SwapSpec, + the repository's annotation fixtures in both roles; distinct = distinct (function, input, parameters); non-trivial = some score strictly "
                       "between 0 and 1")
     ev.d["assumptions"] = ["the exchange of arguments is performed by the harness; beta = 1 throughout", "asymmetric criteria "
                            "(offset tolerances, Cemgil, Goto, continuity, standard_FPR, first-n, melody, AOR) are not claimed"]
